@@ -270,6 +270,8 @@ def _run_eval(recipe, L, mv, real, r, seen):
         inner = e[1] if e[0] == "c" and e[2][0] == "a" else e
         top = "C01.eval." + G.OPNAME[inner[0]]
         tf = G.trans_fields(L, e)
+        okc = {"C01.eval.stepname" if op == "a" else "C01.eval." + G.OPNAME[op] for op in G.ops_of(e)}
+        if tf: okc.add("C01.terminates")
         if tf & dead_fields:
             continue          # closure over this field already failed to terminate in this case
         dead = []
@@ -280,8 +282,7 @@ def _run_eval(recipe, L, mv, real, r, seen):
             st, got, name, _n, _raw = real.eval(e, X)
             ok = st == "ok" and lo <= got <= hi and name == G.step_name(e)
             if ok:
-                r.check(top, True, FN_EVAL)
-                if tf: r.check("C01.terminates", True, FN_EVAL)
+                for c in okc: r.check(c, True, FN_EVAL)
                 continue
             if st not in ("ok", "exc"):
                 dead.append(X)
